@@ -245,6 +245,7 @@ type wctx struct {
 	loop     bool
 	depth    int
 	stack    map[string]bool
+	body     *ast.BlockStmt // body of the function being walked (for the slice-bound facts)
 }
 
 func add(c wctx, kind, callee string, pos token.Pos) {
@@ -317,6 +318,7 @@ func visit(n ast.Node, c wctx) {
 				}
 				in.fn = c.fn + ">" + m
 				in.depth++
+				in.body = fd.Body
 				in.stack = map[string]bool{m: true}
 				for k := range c.stack {
 					in.stack[k] = true
@@ -326,6 +328,7 @@ func visit(n ast.Node, c wctx) {
 		}
 	case *ast.SliceExpr:
 		add(c, "op", "slice "+render(x), x.Pos())
+		analyzeSlice(x, c)
 		children(x, c)
 	case *ast.IndexExpr:
 		add(c, "op", "index "+render(x), x.Pos())
@@ -601,7 +604,7 @@ func main() {
 					}
 				}
 			}
-			visit(fd.Body, wctx{p: ap, kp: kp, own: own, blocker: name, fn: bn, stack: map[string]bool{}})
+			visit(fd.Body, wctx{p: ap, kp: kp, own: own, blocker: name, fn: bn, stack: map[string]bool{}, body: fd.Body})
 		}
 	}
 
@@ -613,6 +616,8 @@ func main() {
 	w("namespace Comdex.Gen.Hooks\n\n")
 	w("structure Blocker where\n  name : String\n  file : String\n  top : List String\nderiving DecidableEq, Repr\n\n")
 	w("structure UnitSite where\n  blocker : String\n  fn : String\n  inFn : String\n  nest : Nat\n  loop : Bool\n  pos : String\n  liveCtx : Bool\n  returnsNonNil : Bool\nderiving DecidableEq, Repr\n\n")
+	w("structure SliceSource where\n  callee : String\n  sameLoop : Bool\nderiving DecidableEq, Repr\n\n")
+	w("structure SliceFact where\n  blocker : String\n  inFn : String\n  expr : String\n  listSrc : String\n  listSameLoop : Bool\n  sources : List SliceSource\n  pos : String\nderiving DecidableEq, Repr\n\n")
 	w("structure ErrSite where\n  blocker : String\n  fn : String\n  inFn : String\n  unit : String\n  callee : String\n  disp : String\n  pos : String\nderiving DecidableEq, Repr\n\n")
 	w("structure Entry where\n  blocker : String\n  fn : String\n  inFn : String\n  kind : String\n  callee : String\n  wrapped : Bool\n  loop : Bool\n  pos : String\nderiving DecidableEq, Repr\n\n")
 	w("def wrapper : Comdex.Hooks.WrapperShape :=\n  { deferRecover := %s, recoverSetsErr := %s, runsOnCache := %s, writeInErrNil := %s, writeElsewhere := %s }\n\n",
@@ -667,6 +672,23 @@ func main() {
 		}
 		w("]\n\n")
 	}
+	w("def sliceFacts : List SliceFact := [\n")
+	for i, f := range sliceFacts {
+		sep := ","
+		if i == len(sliceFacts)-1 {
+			sep = ""
+		}
+		inFn := f.fn
+		if j := strings.LastIndex(inFn, ">"); j >= 0 {
+			inFn = inFn[j+1:]
+		}
+		var ss []string
+		for _, x := range f.sources {
+			ss = append(ss, fmt.Sprintf("⟨%s, %s⟩", q(x.callee), b(x.sameLoop)))
+		}
+		w("  ⟨%s, %s, %s, %s, %s, [%s], %s⟩%s\n", q(f.blocker), q(inFn), q(f.expr), q(f.listSrc), b(f.listSameLoop), strings.Join(ss, ", "), q(f.pos), sep)
+	}
+	w("]\n\n")
 	w("def errorSites : List ErrSite := [\n")
 	for i, e := range errSites {
 		sep := ","
